@@ -356,7 +356,7 @@ fn constructor_attempts(ctx: &Ctx, rep: &mut Report, rng: &mut Rng) {
 }
 
 pub fn run(ctx: &Ctx, rep: &mut Report) {
-    let total = ctx.universes(300, 12000);
+    let total = ctx.universes(1200, 60000);
     for uni in ctx.my_universes(total) {
         let mut rng = ctx.rng_for(uni);
         rep.begin_universe(uni);
